@@ -240,6 +240,15 @@ class Interp:
                    z3.If(J.is_jstr(z), z3.Length(J.s(z)) > 0,
                    z3.If(J.is_jlist(z), z3.Length(J.l(z)) > 0,
                          J.d(z) != z3.K(StringS, OJ.absent)))))))
+        if isinstance(v, VBoundExt) and isinstance(v.recv, (VOpaque, VObj)) and not self.spec_mode:
+            # an attribute of a collaborator object the contract does not describe: it may be a bound method (truthy) or a
+            # data attribute in any state - its truth value is unknown (every read is a fresh unknown: sound, since a call in
+            # between may have changed it)
+            rc = v.recv
+            cd = self.reg.repo_classes.get(rc.cls if isinstance(rc, VObj) else rc.name)
+            if cd is not None and self.find_method(cd.name, v.meth) is not None:
+                return z3.BoolVal(True)
+            return z3.Bool(self.ctx.namer(f"truth_of_{v.meth}"))
         if isinstance(v, (VObj, VFunc, VClass, VOpaque, VExt, VBoundExt)):
             return z3.BoolVal(True)
         raise OutOfSubset(f"truth of {v!r}")
@@ -2036,6 +2045,40 @@ class Interp:
                 out.append(self.eval(e.elt, sub))
         return out
 
+    def comp_pure(self, e, g, xs, fr):
+        """[expr(x) for x in xs] over a sequence of symbolic length where expr is a pure expression of x (no calls into
+        repository code, no effects): r with len(r) == len(xs) and r[i] == expr(xs[i]) for all i.  None if expr is not that."""
+        try:
+            x = z3.Const(self.ctx.namer("x!cmp"), sort_of(xs.elem))
+        except Exception:
+            return None
+        sub = Frame(fr.fdef, fr.module, fr.selfobj, fr)
+        sub.locals[g.target.id] = from_z3(x, xs.elem)
+        ntrace, nvc = len(self.ctx.trace), len(self.ctx.vcs)
+        self.spec_mode += 1
+        try:
+            val = self.force(self.eval(e.elt, sub))
+        except (OutOfSubset, SpecUndefined, PyRaise):
+            return None
+        finally:
+            self.spec_mode -= 1
+        if len(self.ctx.trace) != ntrace or len(self.ctx.vcs) != nvc:
+            return None
+        if isinstance(val, VBool):
+            et = "bool"
+        elif isinstance(val, VInt):
+            et = "int"
+        elif isinstance(val, VStr):
+            et = val.kind
+        else:
+            return None
+        vz = self.truth(val) if et == "bool" else val.z
+        r = z3.Const(self.ctx.namer("mapped"), z3.SeqSort(vz.sort()))
+        i = z3.Int(self.ctx.namer("i!cmp"))
+        self.ctx.assume(z3.Length(r) == z3.Length(xs.z))
+        self.ctx.assume(z3.ForAll([i], z3.Implies(z3.And(0 <= i, i < z3.Length(xs.z)), r[i] == z3.substitute(vz, (x, xs.z[i])))))
+        return VSeqResult(r, et)
+
     def comp_map(self, e, g, xs, fr):
         """[f(x) for x in xs] over a sequence of symbolic length, f under a total contract:
         the result is a sequence r of the same length with ensures_f(xs[i], r[i]) for all i
@@ -2057,6 +2100,9 @@ class Interp:
         if g.ifs or not (isinstance(e.elt, ast.Call) and len(e.elt.args) == 1 and not e.elt.keywords
                          and isinstance(e.elt.args[0], ast.Name) and isinstance(g.target, ast.Name)
                          and e.elt.args[0].id == g.target.id):
+            r_ = self.comp_pure(e, g, xs, fr) if not g.ifs and isinstance(g.target, ast.Name) else None
+            if r_ is not None:
+                return r_
             raise OutOfSubset("comprehension over a symbolic sequence that is not [f(x) for x in xs]")
         f = self.force(self.eval(e.elt.func, fr))
         if not isinstance(f, VFunc):
